@@ -42,7 +42,14 @@ func PlanSteps(s Src) *StepsPlan {
 		// most steps handle signals; the same signal ID may have another data schema on another step, and a
 		// step may have no signal handlers at all
 		st.HasSignals = s.Choose("st.hassig", 5) != 0
-		st.SigVariant = s.Choose("st.sigvariant", 3)
+		st.SigVariant = s.Choose("st.sigvariant", 4)
+		if s.Choose("st.optionalinput", 4) == 3 {
+			// a step whose input requires nothing (an empty object is acceptable; a nil input still is not)
+			st.Input = ScopeRecipe{Root: st.Input.Root, Objects: []ObjectRecipe{{ID: st.Input.Root, Props: []PropRecipe{
+				{Name: "nonce", T: TypeRecipe{Kind: "string"}},
+				{Name: "note", T: TypeRecipe{Kind: "string"}, Default: strp(`"n/a"`)},
+			}}}}
+		}
 		st.WithInit = s.Choose("st.init", 4) != 0
 		if !st.WithInit && s.Choose("st.anydata", 2) == 1 {
 			st.AnyData = true
@@ -74,6 +81,9 @@ func PlanSteps(s Src) *StepsPlan {
 			beh.Kind = emptyBadKinds[s.Choose("st.emptybad", len(emptyBadKinds))]
 		}
 		p.Behs[nonce] = beh
+		if chance(s, "st.nilinput", 1, 12) {
+			op.Input = nil // no configuration at all: never an acceptable object
+		}
 		if chance(s, "st.unknownstep", 1, 10) {
 			op.Step = "no-such-step"
 		}
@@ -90,6 +100,8 @@ func PlanSteps(s Src) *StepsPlan {
 				sop.Input = map[string]any{"k": "not a number"}
 			case 3:
 				sop.Step = "no-such-step"
+			case 4:
+				sop.Input = nil
 			}
 			w := s.Choose("st.worker", nworkers)
 			// a signal may be placed before or after the step call of its run in its worker's list
@@ -343,6 +355,10 @@ func (stepsEngine) Run(t *testing.T, batch string, tape *rt.Tape, runIdx uint64,
 						if errClass(got.Err) != "BadArgumentError" || nInv != 0 {
 							add("mismatch", "model:unknown-step", fmt.Sprintf("step %s: unknown step ID must give BadArgumentError and no handler call; got %s (%v), handler ran %d times", op.RunID, errClass(got.Err), got.Err, nInv))
 						}
+					case op.Input == nil:
+						if errClass(got.Err) != "InvalidInputError" || nInv != 0 {
+							add("mismatch", "model:nil-input-accepted", fmt.Sprintf("step %s: a nil raw input is no object and must give InvalidInputError without a handler call; got %s (%v), handler ran %d times", op.RunID, errClass(got.Err), got.Err, nInv))
+						}
 					case wantInv != 1 || nInv != 1:
 						// whether the input is acceptable is taken from the sequential reference (presence
 						// rules make "valid by construction" unreliable); a differing count is reported below
@@ -359,6 +375,11 @@ func (stepsEngine) Run(t *testing.T, batch string, tape *rt.Tape, runIdx uint64,
 						if got.Err == nil {
 							add("mismatch", "model:non-conforming-output-accepted:"+beh, fmt.Sprintf("step %s: handler returned data that does not satisfy the declared output schema (%s); CallStep reported success (%q, %s)", op.RunID, beh, got.OutputID, short(got.Data)))
 						}
+					}
+				}
+				if op.Kind == "signal" && op.Input == nil && op.Step != "no-such-step" && op.Signal == "poke" {
+					if got.Err == nil || len(invs[opKey(op)]) != 0 {
+						add("mismatch", "model:nil-signal-input-accepted", fmt.Sprintf("signal %s/%s: a nil payload is no object and must be an error without a handler call; got err=%v, handler ran %d times", op.RunID, op.Step, got.Err, len(invs[opKey(op)])))
 					}
 				}
 				gotInvs := invs[opKey(op)]
